@@ -58,6 +58,9 @@ func Generate(profile string, seed uint64, tier string) (*Scenario, error) {
 	case "C04":
 		sc.Property = "C04"
 		genC04(g, sc, tier)
+	case "C07":
+		sc.Property = "C07"
+		genC07(g, sc, tier)
 	default:
 		return genOther(g, sc, profile, tier)
 	}
@@ -186,7 +189,7 @@ func Execute(sc *Scenario) *Verdict {
 		return RunStoreScenario(sc)
 	case "C05", "C02c":
 		return RunConcScenario(sc)
-	case "C04":
+	case "C04", "C07":
 		return RunCrashScenario(sc)
 	}
 	return execOther(sc)
@@ -294,6 +297,101 @@ func genC04(g *G, sc *Scenario, tier string) {
 		}
 		for k := g.Intn(3); k > 0; k-- {
 			sc.Cuts = append(sc.Cuts, [2]int64{int64(i), int64(g.Range(1, 998))})
+		}
+	}
+	sc.Knobs["maxStates"] = 14
+}
+
+// genC07: writes to datasets sharing ids and references, interleaved with delete / rename /
+// re-create, garbage collection and restarts; crashes inside the management operations.
+func genC07(g *G, sc *Scenario, tier string) {
+	c := g.baseStoreCfg(tier)
+	c.Datasets = []string{"dsA", "dsB", "dsC"}
+	c.PRestart, c.PNested, c.PTxn = 0, 0, 0.2
+	c.PRefHeavy = 0.7
+	c.MaxBatch = g.Range(1, 4)
+	sc.Datasets = c.Datasets
+	m := NewModel()
+	for _, d := range c.Datasets {
+		m.Create(d)
+	}
+	allNames := []string{"dsA", "dsB", "dsC", "dsD"}
+	n := g.Range(4, 14)
+	var mgmtOps []int
+	for i := 0; i < n; i++ {
+		live := m.Names()
+		x := g.r.Float64()
+		switch {
+		case x < 0.18 && len(live) > 1:
+			d := g.Pick(live)
+			m.Drop(d)
+			sc.Ops = append(sc.Ops, Op{K: "deleteDataset", DS: d})
+			mgmtOps = append(mgmtOps, len(sc.Ops)-1)
+		case x < 0.30:
+			var free []string
+			for _, nme := range allNames {
+				if m.DS[nme] == nil {
+					free = append(free, nme)
+				}
+			}
+			if len(free) > 0 {
+				d := g.Pick(free)
+				m.Create(d)
+				sc.Ops = append(sc.Ops, Op{K: "createDataset", DS: d})
+				mgmtOps = append(mgmtOps, len(sc.Ops)-1)
+			}
+		case x < 0.40 && len(live) > 0:
+			var free []string
+			for _, nme := range allNames {
+				if m.DS[nme] == nil {
+					free = append(free, nme)
+				}
+			}
+			if len(free) > 0 {
+				d, nw := g.Pick(live), g.Pick(free)
+				m.Rename(d, nw)
+				sc.Ops = append(sc.Ops, Op{K: "renameDataset", DS: d, DS2: nw})
+				mgmtOps = append(mgmtOps, len(sc.Ops)-1)
+			}
+		case x < 0.50:
+			sc.Ops = append(sc.Ops, Op{K: "gc"})
+			mgmtOps = append(mgmtOps, len(sc.Ops)-1)
+		case x < 0.56:
+			sc.Ops = append(sc.Ops, Op{K: "restart"})
+		default:
+			if len(live) == 0 {
+				continue
+			}
+			c.Datasets = live
+			if len(live) > 1 && g.P(c.PTxn) {
+				var parts []Part
+				perm := g.r.Perm(len(live))
+				for _, pi := range perm[:g.Range(1, len(live))] {
+					ents := g.batch(c, m, live[pi])
+					parts = append(parts, Part{DS: live[pi], Ents: ents})
+					m.Batch(live[pi], ents)
+				}
+				sc.Ops = append(sc.Ops, Op{K: "txn", Parts: parts})
+			} else {
+				ds := g.Pick(live)
+				ents := g.batch(c, m, ds)
+				m.Batch(ds, ents)
+				sc.Ops = append(sc.Ops, Op{K: "batch", DS: ds, Ents: ents})
+			}
+		}
+	}
+	pts := append(append([]string(nil), dsmPoints...), "StoreEntities.afterIDCommit", "StoreEntities.afterDataCommit", "updateDataset.beforeStore")
+	if g.P(0.2) {
+		sc.Knobs["allPoints"] = 1
+	} else {
+		for k := g.Range(0, 4); k > 0; k-- {
+			sc.Faults = append(sc.Faults, Fault{At: g.Pick(pts), Hit: g.Range(1, 4), Kind: "crash"})
+		}
+	}
+	for _, i := range mgmtOps {
+		sc.Cuts = append(sc.Cuts, [2]int64{int64(i), 1000})
+		for k := g.Range(1, 3); k > 0; k-- {
+			sc.Cuts = append(sc.Cuts, [2]int64{int64(i), int64(g.Range(1, 999))})
 		}
 	}
 	sc.Knobs["maxStates"] = 14
